@@ -24,6 +24,16 @@ readers make into the standard library.  Validated against CPython by `py2lean_c
   (everything from `pos` for a negative `n`, nothing beyond the end), `seekSet? p` = the position after
   `f.seek(p)` / `f.seek(p, os.SEEK_SET)` (ValueError for a negative `p`), `f.seek(0, os.SEEK_END)` = the length,
   `f.tell()` = the position.
+* text mode of `reverse_iter_lines` (round 3f; `encoding` declared to be the codec name 'utf-8'): `decodeUtf8? b` =
+  `b.decode('utf-8')` - the strict UTF-8 codec (`utf8Decode`: shortest form only, no surrogates, at most U+10FFFF) giving
+  the text as the list of its characters, or UnicodeDecodeError - a ValueError, the class `PyExc` has - where CPython raises.
+* `JSONLIterator.next` on a binary file (round 3f): the stored line iterator is the LIST of the lines it still yields
+  (`iterNext?` = `next(it)`: the first of them, StopIteration when there is none; `iterRest` = the iterator afterwards);
+  `lstripWs` = `bytes.lstrip()` (ASCII white space 9-13, 32), `rstripSet b chars` = `bytes.rstrip(chars)`;
+  `JsonLoads β γ` / `jsonLoads?` — `json.loads` on a line: a PARAMETER of the generated definition (type-class instance),
+  assumed to be a pure function of the line (same result or same exception whenever it is called on the same bytes);
+  `jsonLoadsFails b` = "`json.loads(b)` raises" - by that purity, `try: v = json.loads(b)` / `except Exception: H` is
+  `if jsonLoadsFails b then H else v = json.loads(b)`, and a bare `raise` in H is `json.loads(b)` raising again.
 -/
 namespace PyRtC19
 
@@ -109,5 +119,86 @@ def fileRead {β : Type} (data : List β) (pos n : Int) : List β :=
 /-- the position after `f.seek(p)` -/
 def seekSet? (p : Int) : Except PyExc Int :=
   if p < 0 then .error PyExc.ValueError else .ok p
+
+/-! ### text mode: `line.decode('utf-8')` -/
+
+/-- a UTF-8 continuation byte -/
+def isCont (b : Nat) : Bool := 128 ≤ b && b ≤ 191
+
+/-- `bytes.decode('utf-8')` (the strict codec) on byte values: the code points, or `none` where the codec raises
+    UnicodeDecodeError (a byte that starts no sequence, a truncated or over-long sequence, a surrogate, a value above
+    U+10FFFF) -/
+def utf8Decode : List Nat → Option (List Nat)
+  | [] => some []
+  | b :: rest =>
+    if b < 128 then (utf8Decode rest).map (b :: ·)
+    else if 194 ≤ b && b ≤ 223 then
+      match rest with
+      | c1 :: r =>
+        if isCont c1 then (utf8Decode r).map (((b - 192) * 64 + (c1 - 128)) :: ·) else none
+      | _ => none
+    else if 224 ≤ b && b ≤ 239 then
+      match rest with
+      | c1 :: c2 :: r =>
+        if isCont c1 && isCont c2 && (b != 224 || 160 ≤ c1) && (b != 237 || c1 ≤ 159) then
+          (utf8Decode r).map (((b - 224) * 4096 + (c1 - 128) * 64 + (c2 - 128)) :: ·)
+        else none
+      | _ => none
+    else if 240 ≤ b && b ≤ 244 then
+      match rest with
+      | c1 :: c2 :: c3 :: r =>
+        if isCont c1 && isCont c2 && isCont c3 && (b != 240 || 144 ≤ c1) && (b != 244 || c1 ≤ 143) then
+          (utf8Decode r).map (((b - 240) * 262144 + (c1 - 128) * 4096 + (c2 - 128) * 64 + (c3 - 128)) :: ·)
+        else none
+      | _ => none
+    else none
+
+/-- `b.decode(encoding)`, `encoding` the declared codec 'utf-8': the text (a `str` is the list of its characters), or
+    UnicodeDecodeError (a subclass of ValueError) -/
+def decodeUtf8? {β : Type} [Byte β] (b : List β) : Except PyExc (List Char) :=
+  match utf8Decode (b.map Byte.val) with
+  | some cps => .ok (cps.map Char.ofNat)
+  | none => .error PyExc.ValueError
+
+/-! ### JSONLIterator.next: the line iterator, strip, json.loads -/
+
+/-- `next(it)`, `it` an iterator that still yields the lines `ls` -/
+def iterNext? {β : Type} (ls : List (List β)) : Except PyExc (List β) :=
+  match ls with
+  | [] => .error PyExc.StopIteration
+  | l :: _ => .ok l
+
+/-- the iterator after that `next` -/
+def iterRest {β : Type} (ls : List (List β)) : List (List β) := ls.tail
+
+/-- what `bytes.lstrip()` removes -/
+def asciiWs (n : Nat) : Bool := n == 9 || n == 10 || n == 11 || n == 12 || n == 13 || n == 32
+
+/-- `b.lstrip()` -/
+def lstripWs {β : Type} [Byte β] (b : List β) : List β := b.dropWhile (fun c => asciiWs (Byte.val c))
+
+/-- what `str.lstrip()` removes (code points; `str.isspace`) -/
+def unicodeWs (n : Nat) : Bool :=
+  [9, 10, 11, 12, 13, 28, 29, 30, 31, 32, 133, 160, 5760, 8192, 8193, 8194, 8195, 8196, 8197, 8198, 8199, 8200, 8201, 8202,
+    8232, 8233, 8239, 8287, 12288].contains n
+
+/-- `s.lstrip()` on a str (an item is a code point, `Byte.val` its value) -/
+def lstripWsT {β : Type} [Byte β] (b : List β) : List β := b.dropWhile (fun c => unicodeWs (Byte.val c))
+
+/-- `b.rstrip(chars)` -/
+def rstripSet {β : Type} [Byte β] (b chars : List β) : List β :=
+  (b.reverse.dropWhile (fun c => (chars.map Byte.val).contains (Byte.val c))).reverse
+
+/-- `json.loads` on a line: the caller's parser, a pure function of the line -/
+class JsonLoads (β : Type) (γ : outParam Type) where
+  loads : List β → Except PyExc γ
+
+def jsonLoads? {β γ : Type} [JsonLoads β γ] (b : List β) : Except PyExc γ := JsonLoads.loads b
+
+/-- does `json.loads(b)` raise? -/
+def jsonLoadsFails {β γ : Type} [JsonLoads β γ] (b : List β) : Bool :=
+  match (JsonLoads.loads b : Except PyExc γ) with
+  | .error _ => true
+  | .ok _ => false
 
 end PyRtC19
